@@ -14,6 +14,11 @@ NUMS = [0, 1, 2, 10]
 IDS = ["0", "1", "10", "a", "B", "-"]
 
 
+# every word zerv's own converters give a meaning to (SemVer precedence gives them none: plain ASCII order), in three letter cases
+LABEL_WORDS = [w2 for w in ("dev", "post", "epoch", "pre", "preview", "c", "r", "rev", "alpha", "beta", "rc", "final", "release", "snapshot", "build", "nightly", "none", "null")
+               for w2 in (w, w.upper(), w.capitalize())]
+
+
 def universe():
     out = []
     pres = [None]
@@ -30,7 +35,10 @@ def universe():
 
 def random_large(rng, n):
     nums = [0, 1, 2, 9, 10, 11, 99, 100, 2 ** 31, 2 ** 32, 2 ** 53 + 1, 2 ** 63, 2 ** 64 - 2, 2 ** 64 - 1]
-    ids = ["alpha", "beta", "rc", "Alpha", "ALPHA", "a", "b", "A", "B", "-", "--", "a-", "-a", "0a", "a0", "00a", "0-", "z", "Z", "aa", "ab", "a1", "a10", "a2"]
+    ids = ["alpha", "beta", "rc", "Alpha", "ALPHA", "a", "b", "A", "B", "-", "--", "a-", "-a", "0a", "a0", "00a", "0-", "z", "Z", "aa", "ab", "a1", "a10", "a2"] + LABEL_WORDS
+    # plus identifiers nobody listed: a comparison that singles out some word has to be right for the others too
+    ids += ["".join(rng.choice("abcdefghijklmnopqrstuvwxyzABCDEFGHIJKLMNOPQRSTUVWXYZ0123456789-") for _ in range(rng.randrange(1, 9))) for _ in range(60)]
+    ids = [i for i in ids if not (i.isdigit() and len(i) > 1 and i[0] == "0")]
     out = []
     for _ in range(n):
         s = "%d.%d.%d" % (rng.choice(nums), rng.choice(nums[:5]), rng.choice(nums[:5]))
@@ -51,7 +59,7 @@ def boundary_families():
     out = []
     for v in vals:
         out += ["%d.0.0" % v, "1.%d.0" % v, "1.0.%d" % v, "1.0.0-%d" % v, "1.0.0-rc.%d" % v, "1.0.0-%d.a" % v, "1.0.0-a.%d.b" % v, "1.0.0-0.%d" % v]
-    for t in texts:
+    for t in texts + LABEL_WORDS:
         out += ["1.0.0-%s" % t, "1.0.0-rc.%s" % t, "1.0.0-%s.1" % t, "1.0.0-1.%s" % t, "1.0.0-%s.%s" % (t, t)]
     return out
 
